@@ -1,7 +1,9 @@
 package main
 
 import (
+	crand "crypto/rand"
 	"crypto/rsa"
+	stdx509 "crypto/x509"
 	"math/big"
 	"io"
 	"regexp"
@@ -38,6 +40,22 @@ func init() {
 			}
 		}
 		out.Data["lint_global_writes"] = lintWrites
+		// reads of the clock, of timers and of the scheduler's state reachable from a lint: what such a call returns depends
+		// on when and beside whom the goroutine runs, which is exactly what the property excludes
+		var schedReads []string
+		for _, f := range facts {
+			for _, w := range f.Forbidden {
+				clock := strings.HasPrefix(w, "runtime.") || strings.HasPrefix(w, "context.")
+				for _, p := range []string{"time.Now", "time.Since", "time.Until", "time.Sleep", "time.After", "time.Tick", "time.NewTimer", "time.NewTicker"} {
+					clock = clock || strings.HasPrefix(w, p)
+				}
+				if clock {
+					schedReads = append(schedReads, f.Name+" "+w)
+				}
+			}
+		}
+		sort.Strings(schedReads)
+		out.Data["lint_clock_reads"] = schedReads
 		out.Data["entry_global_writes"] = extra["entry_global_writes"]
 		out.Data["lock_ops"] = extra["lock_ops"]
 		out.Data["entry_functions"] = extra["entry_functions"]
@@ -228,6 +246,65 @@ func init() {
 				}
 			}
 			runtime.GOMAXPROCS(prev)
+		}
+		// heavy objects under processor oversubscription: a revocation list as large as big issuers publish (a repeated
+		// serial number near its end, the smallest serial last) linted by 16 goroutines on one processor, each on its own
+		// parsed copy - a call that gets a sixteenth of a processor reports what the same call reports alone
+		{
+			k := getKit()
+			n := 40000
+			if tier() == "thorough" {
+				n = 120000
+			}
+			tmpl := &stdx509.RevocationList{Number: big.NewInt(77001), ThisUpdate: time.Date(2024, 2, 1, 0, 0, 0, 0, time.UTC), NextUpdate: time.Date(2024, 2, 8, 0, 0, 0, 0, time.UTC)}
+			for j := 0; j < n; j++ {
+				tmpl.RevokedCertificateEntries = append(tmpl.RevokedCertificateEntries, stdx509.RevocationListEntry{SerialNumber: big.NewInt(int64(j)*7 + 1000), RevocationTime: tmpl.ThisUpdate.Add(-time.Duration(j%5000+1) * time.Minute)})
+			}
+			tmpl.RevokedCertificateEntries = append(tmpl.RevokedCertificateEntries, tmpl.RevokedCertificateEntries[n-9])
+			tmpl.RevokedCertificateEntries = append(tmpl.RevokedCertificateEntries, stdx509.RevocationListEntry{SerialNumber: big.NewInt(3), RevocationTime: tmpl.ThisUpdate.Add(-time.Hour), ReasonCode: 7})
+			if der, err := stdx509.CreateRevocationList(crand.Reader, tmpl, k.caCert, k.caKey); err == nil {
+				if crl0, err := x509.ParseRevocationList(der); err == nil {
+					alone := resultsOf(zlint.LintRevocationList(crl0))
+					alone2 := resultsOf(zlint.LintRevocationList(crl0))
+					prev := runtime.GOMAXPROCS(1)
+					var wg sync.WaitGroup
+					var mu sync.Mutex
+					diffs := map[string]string{}
+					for w := 0; w < 16; w++ {
+						wg.Add(1)
+						go func() {
+							defer wg.Done()
+							defer func() {
+								if p := recover(); p != nil {
+									mu.Lock()
+									diffs["panic"] = fmt.Sprint(p)
+									mu.Unlock()
+								}
+							}()
+							crl, err := x509.ParseRevocationList(der)
+							if err != nil {
+								return
+							}
+							got := resultsOf(zlint.LintRevocationList(crl))
+							mu.Lock()
+							for ln, v := range alone {
+								if alone2[ln] == v && got[ln] != v {
+									diffs[ln] = fmt.Sprintf("%v alone, %v as one of 16 goroutines on one processor", v, got[ln])
+								}
+							}
+							mu.Unlock()
+						}()
+					}
+					wg.Wait()
+					runtime.GOMAXPROCS(prev)
+					total += 16
+					out.Stats["oversubscribed_large_crl_entries"] = n + 2
+					for ln, why := range diffs {
+						out.Violate("C10|oversubscribed-differs:"+ln, fmt.Sprintf("lint %s on a revocation list of %d entries (a repeated serial number near the end): %s", ln, n+2, why),
+							map[string]interface{}{"object": "CRL built by harness c10: " + fmt.Sprint(n) + " entries serial 7j+1000, entry n-9 repeated, then serial 3 reason 7", "gomaxprocs": 1, "goroutines": 16, "der_bytes": len(der)}, nil, nil)
+					}
+				}
+			}
 		}
 		// two shared registries with different configurations for the configurable CRL lint, used at the same time: every
 		// call gets what the same call gets alone under its own registry's configuration
